@@ -142,6 +142,19 @@ CLAIMS = {
         note="Trusted: Lean kernel/Mathlib/standard axioms; harness; numpy complex matrix products (1e-10). The constant 4π is abstract in the theorems (it enters no symmetry). The "
              "list-based exact evaluator and the Mathlib definition are the same formula by inspection, not by a Lean lemma.",
         ref="§7 C18"),
+    "C08": dict(
+        technique="Lean 4 proof (plane-wave intertwining over any commutative ring and finite abelian group of cells; Hermiticity; Complex.exp character laws) + exact Gaussian-integer correspondence",
+        text="Kernel-checked theorems: for every commutative ring, every finite abelian group G of cells, every multiplicative φ and every list of bonds (parallel bonds add), "
+             "the real-space matrix of the tiling maps the plane wave φ⊗v to φ⊗(Bloch(φ)·v), so every Bloch eigenvector lifts to an eigenvector of the tiled matrix with the same "
+             "eigenvalue — this fixes the sign and direction of the crossing vector, the conjugate placement and the accumulation; at the trivial character the Bloch matrix is the "
+             "real-space matrix of the cell; for unitary characters and conjugate weights it is Hermitian; koala's characters exp(i k·δ) are multiplicative, 2π-periodic in each "
+             "component and equal to 1 on whole-system translations at the allowed momenta 2π(m_x/n_x, m_y/n_y). Entries of k_hamiltonian at momenta in (π/2)ℤ² are compared with the "
+             "exact Gaussian-integer model; the union over allowed momenta of eigvalsh(H_k) is compared with the spectrum of koala's own n_x×n_y tiling (1×1..4×4, rectangular, "
+             "multigraph cells, random u/J/colouring or None), Hermiticity, periodicity, k=0 and the three analysis helpers are evaluated on the implementation.",
+        note="Trusted: Lean kernel/Mathlib/standard axioms; harness; LAPACK eigvalsh (1e-9); exp at multiples of π/2 to 1e-12. Linear independence of the n_x·n_y plane waves (so that the "
+             "lifted eigenvectors exhaust the tiled spectrum) is standard character orthogonality and is not proved; the full multiset equality is decided numerically. The "
+             "analysis helpers are decided on the implementation (cells with an odd number of sites are excluded: 'lower half' undefined).",
+        ref="§7 C08"),
 }
 
 PENDING_REASON = "check not built yet in this revision (work in progress; see DESIGN.md §7 for the planned Lean model and tie)"
